@@ -21,6 +21,11 @@ def stream_receivers(fx):
 def ssh_pump(fx):
     cands = [b for n, b in fx.mir.items() if n.startswith(SSH_CONNECT + "::{closure") and b.coroutine
              and b.calls_to("russh::Channel::<S>::wait")]
+    if len(cands) > 1:
+        # the pump is the one that also serves the outgoing queue; other coroutines waiting on the channel (set-up) are C07/R2's business
+        pumps = [b for b in cands if b.calls_to("mpsc::Receiver::<T>::recv")]
+        if len(pumps) == 1:
+            cands = pumps
     if len(cands) != 1:
         raise F.AnchorLost("ssh pump task: expected one coroutine under %s calling Channel::wait, found %d" % (SSH_CONNECT, len(cands)))
     return cands[0]
